@@ -806,8 +806,28 @@ Definition untok_optlist (t : bytes) : option (option (list bytes)) :=
 Definition untok_optZ (t : bytes) : option (option Z) :=
   match t with ["-"%char] => Some None | _ => option_map Some (Z_of_dec t) end.
 
+Definition parse_opt_tt (d : bytes) : option (option token_type) :=
+  match d with ["-"%char] => Some None | _ => option_map Some (parse_tt d) end.
+
 Definition run_built (ws : list bytes) : bytes :=
   match ws with
+  | [fam; act; sc; cid; un; tty; ex; ia; nb_; su; au; is_; jt] =>
+      if is_kw "introspection" fam then
+        match untok_bool act, untok_optlist sc, untok_opt cid, untok_opt un, parse_opt_tt tty,
+              untok_optZ ex, untok_optZ ia, untok_optZ nb_ with
+        | Some act, Some sc, Some cid, Some un, Some tty, Some ex, Some ia, Some nb_ =>
+            match untok_opt su, untok_optlist au, untok_opt is_, untok_opt jt with
+            | Some su, Some au, Some is_, Some jt =>
+                built_rt (decode_introspection ef_empty) (encode_introspection ef_empty)
+                  (render_introspection render_unit)
+                  {| ir_active := act; ir_scopes := sc; ir_client_id := cid; ir_username := un;
+                     ir_token_type := tty; ir_exp := ex; ir_iat := ia; ir_nbf := nb_; ir_sub := su;
+                     ir_aud := au; ir_iss := is_; ir_jti := jt; ir_extra := tt |}
+            | _, _, _, _ => bad_case
+            end
+        | _, _, _, _, _, _, _, _ => bad_case
+        end
+      else bad_case
   | [fam; a; b; c; d; e; f] =>
       if is_kw "token" fam then
         match untok_bytes a, parse_tt b, untok_optN c, untok_opt d, untok_optlist e with
@@ -815,16 +835,6 @@ Definition run_built (ws : list bytes) : bytes :=
             built_rt (decode_token ef_empty) (encode_token ef_empty) (render_token render_unit)
               {| tr_access := a; tr_type := b; tr_expires := c; tr_refresh := d; tr_scopes := e; tr_extra := tt |}
         | _, _, _, _, _ => bad_case
-        end
-      else if is_kw "introspection" fam then
-        match untok_bool a, untok_optlist b, untok_opt c, (match d with ["-"%char] => Some None | _ => option_map Some (parse_tt d) end),
-              untok_optZ e, untok_optlist f with
-        | Some a, Some b, Some c, Some d, Some e, Some f =>
-            built_rt (decode_introspection ef_empty) (encode_introspection ef_empty) (render_introspection render_unit)
-              {| ir_active := a; ir_scopes := b; ir_client_id := c; ir_username := None; ir_token_type := d;
-                 ir_exp := e; ir_iat := None; ir_nbf := None; ir_sub := None; ir_aud := f; ir_iss := None;
-                 ir_jti := None; ir_extra := tt |}
-        | _, _, _, _, _, _ => bad_case
         end
       else if is_kw "err-basic" fam then
         match untok_bytes a, untok_opt b, untok_opt c with
